@@ -56,11 +56,20 @@ DefFinger(r) ==
   ELSE IF r.res.nil THEN {<<"C11", IF r.srcNil THEN "nil-source-does-not-return-constructor-result" ELSE "nil-result", "", r.id>>}
   ELSE (IF ~DMatch(e.A, r.res.A) THEN {<<"C11", IF r.srcNil THEN "nil-source-does-not-return-constructor-result" ELSE "mapped-field-not-converted", "", r.id>>} ELSE {})
        \cup (IF ~DMatch(e.B, r.res.B) THEN {<<"C11", IF r.srcNil THEN "nil-source-does-not-return-constructor-result" ELSE IF p.ignoreB THEN "ignored-field-lost-constructor-value" ELSE "mapped-field-not-converted", "", r.id>>} ELSE {})
-Finger(r) == IF r.kind = "field" THEN FieldFinger(r) ELSE IF r.kind = "acc" THEN AccFinger(r) ELSE IF r.kind = "fieldx" THEN XFinger(r) ELSE IF r.kind = "default-rebuild" THEN RebuildFinger(r) ELSE IF r.kind = "default" THEN DefFinger(r) ELSE UpdFinger(r)
+\* C18 on the outputs of this family: no reflect / unsafe, nothing but the converter struct and its methods, imports only
+\* the packages owning the types used (the user's package p and, for the accessibility programs, q)
+Finger18(r) ==
+  IF r.gen # "ok" \/ "imports" \notin DOMAIN r THEN {}
+  ELSE (IF Rng(r.imports) \cap {"reflect", "unsafe"} # {} THEN {<<"C18", "imports-reflect-or-unsafe", r.kind, r.id>>} ELSE {})
+       \cup (IF ~(Rng(r.imports) \subseteq {"user", "user-q"}) THEN {<<"C18", "imports-differ-from-owners-of-used-types", r.kind, r.id>>} ELSE {})
+       \cup (IF \E i \in DOMAIN r.decls : r.decls[i] \notin {"struct", "method"} THEN {<<"C18", "extra-top-level-declaration", r.kind, r.id>>} ELSE {})
+Finger0(r) == IF r.kind = "genfile" THEN {}
+              ELSE IF r.kind = "update-iface" THEN (IF r.gen = "ok" /\ r.compiles THEN {} ELSE {<<"C10", "update-method-rejected", "interface-member", r.id>>})
+              ELSE IF r.kind = "field" THEN FieldFinger(r) ELSE IF r.kind = "acc" THEN AccFinger(r) ELSE IF r.kind = "fieldx" THEN XFinger(r) ELSE IF r.kind = "default-rebuild" THEN RebuildFinger(r) ELSE IF r.kind = "default" THEN DefFinger(r) ELSE UpdFinger(r)
 VARIABLES l, bad
 Init == l = 1 /\ bad = {}
 Next == /\ l <= Len(Obs)
-        /\ LET f == Finger(Obs[l]) IN bad' = bad \cup {<<x[1], x[2], x[3]>> : x \in f} /\ EmitFP(f)
+        /\ LET f == Finger0(Obs[l]) \cup Finger18(Obs[l]) IN bad' = bad \cup {<<x[1], x[2], x[3]>> : x \in f} /\ EmitFP(f)
         /\ l' = l + 1
 Done == l = Len(Obs) + 1
 Report == Done => EmitSummary(Len(Obs))
